@@ -622,7 +622,7 @@ pub fn check_main(sc: &'static dyn Scenario, o: &CheckOpts) -> i32 {
         let dir = verif_dir().join("replays").join(id);
         std::fs::create_dir_all(&dir).ok();
         let orig = ReplayFile { format: 1, property: id.into(), scenario: sc.name().into(), verif_seed: o.seed, index: f.index, run_seed: f.run_seed, repo_head: repo_head(), plan: f.plan.clone(), tapes: Some(f.tapes.clone()), expect: f.violation.clone(), fingerprint: f.fingerprint, minimiser: json!(null) };
-        let clause: String = f.violation.class.chars().map(|c| if c.is_ascii_alphanumeric() { c } else { '_' }).collect();
+        let clause: String = f.violation.key.chars().map(|c| if c.is_ascii_alphanumeric() { c } else { '_' }).collect();
         let opath = dir.join(format!("{}-{}.orig.json", f.run_seed, clause));
         std::fs::write(&opath, serde_json::to_string_pretty(&orig).unwrap()).ok();
         let rf = ReplayFile { format: 1, property: id.into(), scenario: sc.name().into(), verif_seed: o.seed, index: f.index, run_seed: f.run_seed, repo_head: repo_head(), plan, tapes: Some(tapes), expect: v.clone(), fingerprint: fp, minimiser: mini };
